@@ -23,7 +23,9 @@ RULE = ("accept direction: every accepted input of W-TOK (V_full<=3 with/without
         "single needed extension and random subsets removed from the require; look-alike "
         "direction: generated bodies whose require names only a string resembling the needed "
         "extension (comma lists inside one string, padding, affixes, escaped quotes), as a "
-        "single string and inside a list. Non-trivial = "
+        "single string and inside a list. Before every look-alike and removal parse (and every "
+        "4th other one) all extensions are registered by hand through sievelib.commands (a "
+        "require object completed outside any parse). Non-trivial = "
         "accepted input containing at least one extension-bound construct, or a removal case; "
         "distinct = distinct input byte strings.")
 ASSUMPTIONS = [
@@ -33,8 +35,10 @@ ASSUMPTIONS = [
 ]
 FLOORS = {
     "quick": {"accepted-with-ext-constructs": 3000, "removal-cases": 5000, "lookalike-cases": 20000,
+              "parses-after-extensions-were-registered-by-hand": 30000,
               "constructs-checked": 10000},
     "thorough": {"accepted-with-ext-constructs": 60000, "removal-cases": 100000, "lookalike-cases": 400000,
+                 "parses-after-extensions-were-registered-by-hand": 600000,
                  "constructs-checked": 200000},
 }
 SHARD_TIMEOUT = {"quick": 600, "thorough": 3000}
@@ -106,7 +110,16 @@ def walk(result, res=None):
     return bad, n[0]
 
 
+PRELOAD = {"n": 0}
+
+
 def check_accept(label, data, info, res: Result):
+    PRELOAD["n"] += 1
+    if label in ("lookalike", "replay") or (label != "tok" and PRELOAD["n"] % 4 == 0):
+        # every extension registered by hand through the commands API right before the
+        # parse: what was loaded outside this script gates nothing in it
+        if lab.complete_require_by_hand():
+            res.count("parses-after-extensions-were-registered-by-hand")
     o = lab.parse(data)
     if o.verdict() is not True:
         res.case(data, nontrivial=False)
@@ -160,6 +173,8 @@ def check_removal(body, exts, removed, rng, res: Result, label):
         # the premise 'a valid script' of the removal clause does not hold
         res.count("removal-skipped:base-not-accepted")
         return
+    if lab.complete_require_by_hand():
+        res.count("parses-after-extensions-were-registered-by-hand")
     o = lab.parse(data)
     res.count("removal-cases")
     res.case(data)
